@@ -98,7 +98,7 @@ def do_dump(dbpath, cfg, mode, batch, phase=None):
     fields = [('k', 'number' if 'numkey' in cols else 'string'), ('v', 'integer' if phase == 0 else 'string')] + \
         ([('arr', 'array')] if 'arr' in cols else []) + ([('obj', 'object')] if 'obj' in cols else [])
     rows = [mkrow(k, v, cols, phase) for k, v in batch]
-    st = mkstate([('r', fields, rows)] + ([('r2', fields, copy.deepcopy(rows))] if cfg.get('two') else []))
+    st = mkstate([('r', fields, rows)] + ([('r2', fields, copy.deepcopy(rows))] if (cfg.get('two') or cfg.get('unmapped')) else []))
     if cfg['pk']:
         for r in st.desc['resources']:
             r['schema']['primaryKey'] = ['k']
@@ -116,6 +116,8 @@ def do_dump(dbpath, cfg, mode, batch, phase=None):
         tbl['update_keys'] = ['k']
     if (mode == 'update' or cfg.get('keys_always')) and not cfg['pk']:
         tbl['update_keys'] = ['k']          # only mode 'update' may honour them
+    if cfg.get('keys_none'):
+        tbl['update_keys'] = None           # spelled out: fall back to the schema's primary key
     tables = {'t': tbl}
     if cfg.get('two'):
         tables['t2'] = dict(tbl, **{'resource-name': 'r2'})
@@ -123,6 +125,9 @@ def do_dump(dbpath, cfg, mode, batch, phase=None):
         out = core.materialise(core.from_state(st),
                                core.dataflows.dump_to_sql(tables, engine='sqlite:///' + dbpath, updated_column='_upd',
                                                           batch_size=cfg['batch_size'], use_bloom_filter=cfg['bloom']))
+        if cfg.get('unmapped') and enc_rows(out.rows[1]) != enc_rows(rows):
+            # a resource the step does not map to any table simply continues downstream
+            return 'exc', AssertionError('the resource r2, which dump_to_sql was not asked to store, continues downstream as %r' % (out.rows[1],)), rows
         return 'ok', out.rows[0], rows
     except core.CaseTimeout:
         raise
@@ -373,6 +378,8 @@ def configs(tier):
     out.append({'pk': False, 'batch_size': 1000, 'bloom': True, 'cols': [], 'neighbours': True})
     for pk in (False, True):
         out.append({'pk': pk, 'batch_size': 1000, 'bloom': True, 'cols': [], 'schema_change': True, 'modes': ['rewrite']})
+    out.append({'pk': False, 'batch_size': 1000, 'bloom': True, 'cols': [], 'unmapped': True})
+    out.append({'pk': True, 'batch_size': 1000, 'bloom': True, 'cols': [], 'keys_none': True})
     out.append({'pk': False, 'batch_size': 1, 'bloom': False, 'cols': ['arr', 'obj'], 'keys_always': True})
     # one step writing two tables with the same column names
     for pk in (False, True):
